@@ -114,9 +114,22 @@ class Str(T):
             ip.ctx.assume(z3.InRe(v.t, Pat.of(_re.compile(self.regex)).body_lang()))
         if self.maxlen is not None:
             ip.ctx.assume(z3.Length(v.t) <= self.maxlen)
+            ip.hooks.setdefault(('strlen_bound',), {})[v.t.get_id()] = self.maxlen
         if self.ascii_only:
             ip.ctx.assume(z3.InRe(v.t, z3.Star(z3.Range('\x00', '\x7f'))))
         return v
+
+
+class Cat(T):
+    """string built as the concatenation of independently shaped parts"""
+
+    def __init__(self, *parts):
+        self.parts = parts
+
+    def make(self, ip, name):
+        from . import models
+        vals = [p.make(ip, f"{name}_{i}") if isinstance(p, T) else p for i, p in enumerate(self.parts)]
+        return models.concat_strs(ip, vals)
 
 
 class Opt(T):
@@ -141,6 +154,10 @@ class OneOf(T):
             v = SV(z3.Int(fresh_name(name)))
         else:
             v = SV(z3.String(fresh_name(name)))
+            # as a language fact (decides later tests on the value without the solver) + length bound for case mapping
+            ip.ctx.assume(z3.InRe(v.t, z3.Union(*[z3.Re(x) for x in self.vals]) if len(self.vals) > 1 else z3.Re(self.vals[0])))
+            ip.hooks.setdefault(('strlen_bound',), {})[v.t.get_id()] = max(len(x) for x in self.vals)
+            return v
         ip.ctx.assume(z3.Or(*[v.t == lift(x) for x in self.vals]))
         return v
 
@@ -301,7 +318,7 @@ class Unit:
 
     def __init__(self, name, target, params, requires=None, ensures=(), raises=None, loops=None, env=None,
                  uses=(), self_param=None, replay=None, prop=None, max_unroll=0, setup=None, kwargs_call=None,
-                 check_effects=None, note='', timeout_s=None, ghost=None, hooks=None):
+                 check_effects=None, note='', timeout_s=None, ghost=None, hooks=None, native_setup=None, thorough_only=False):
         self.name = name
         self.target = target            # 'module:Qual.name' (nested functions allowed)
         self.params = params            # ordered dict name -> T
@@ -320,3 +337,5 @@ class Unit:
         self.timeout_s = timeout_s
         self.ghost = ghost or {}
         self.hooks = hooks or {}
+        self.native_setup = native_setup
+        self.thorough_only = thorough_only
